@@ -146,7 +146,11 @@ impl Schedule {
 
     /// Computes the leader for the given view.
     pub fn view_leader(&self, view_number: ViewNumber) -> validator::PublicKey {
-        let turn = view_number.0 / self.leader_selection.frequency;
+        // A frequency of 0 means that the leader never rotates.
+        let turn = view_number
+            .0
+            .checked_div(self.leader_selection.frequency)
+            .unwrap_or(0);
 
         match &self.leader_selection.mode {
             LeaderSelectionMode::RoundRobin => {
